@@ -1,14 +1,5 @@
 SPECIFICATION Spec
 CONSTANTS Devs = {"Dev_C12_ParallelRootCid", "Dev_C12_HandlerSelfRecursion"}
-          Cases <- MCCasesNorm
-          MCN = 3
-          MCStatus = {"ok", "missing"}
-          MCLims <- LimNone
-          MCConcs = {2}
-          MCSkips = {FALSE}
-          MCHandlerLists <- HL_Shape
-          MCOers = {"same"}
-          MCProvs = {TRUE}
+          Cases <- MDev
 INVARIANTS TypeOK VisitedSafe VisitedExact DepthShortest FetchedExact LocalExact HandlerCidRight
            HandlerCallsRight ProvidedExact ResultRight NoHandlerCrash
-
